@@ -19,6 +19,9 @@ type SpecCfg struct {
 	Mode string // parse | validate
 	// KeyOf gives the input key / path segment of a struct field. nil = zog tag, else schema key.
 	KeyOf func(f Field) string
+	// Flat is the record of a flat source (form, query, environment): nested
+	// struct schemas resolve their fields against it.
+	Flat map[string]any
 }
 
 type CatchObs struct {
@@ -242,6 +245,9 @@ func (o *SpecOut) schedulePosts(n *Node, dst reflect.Value, absentOptional bool)
 // riskyPosts reports whether some mutating PostTransform sits below a node with
 // a data-dependent test: then, in an execution that has issues, whether the
 // transform ran before that test depends on the field visit order.
+// RiskyPosts is riskyPosts for a whole schema.
+func RiskyPosts(root *Node) bool { return riskyPosts(root, false) }
+
 func riskyPosts(n *Node, underDataTest bool) bool {
 	if underDataTest {
 		for _, p := range n.Posts {
@@ -358,6 +364,9 @@ func specParse(n *Node, cfg SpecCfg, in any, dst reflect.Value, path string, loc
 		out.schedulePosts(n, dst, false)
 	case n.Kind == KStruct:
 		get, ok := structGetter(in)
+		if _, nested := in.(FlatNested); nested && cfg.Flat != nil {
+			get, ok = func(k string) any { return cfg.Flat[k] }, true
+		}
 		if !ok {
 			switch reflect.ValueOf(in).Kind() {
 			case reflect.Struct, reflect.Pointer, reflect.Map:
